@@ -105,6 +105,17 @@ class SymFile(object):
     def flush(self):
         pass
 
+    def truncate(self, size=None):
+        buf = self._buf()
+        if size is None:
+            size = self.pos
+        if isinstance(size, SymInt):
+            size = size.__index__()
+        del buf[size:]
+        if self.fs.logging:
+            self.fs.log.append((self.path, "truncate", (), False))
+        return size
+
     def fileno(self):
         return self
 
